@@ -40,15 +40,15 @@ import (
 )
 
 type concReq struct {
-	Mode    string       `json:"mode"`
-	N       int          `json:"n"`
-	Rounds  int          `json:"rounds"`
-	Seed    uint64       `json:"seed"`
-	OpsPerG int          `json:"ops_per_g"`
-	Inputs  []string     `json:"inputs"`
-	Values  []int        `json:"values"` // rounds: fixed sizes (len = n) instead of seeded ones
-	Cases   [][]seqCall  `json:"cases"`
-	Ops     []string     `json:"ops"`
+	Mode    string      `json:"mode"`
+	N       int         `json:"n"`
+	Rounds  int         `json:"rounds"`
+	Seed    uint64      `json:"seed"`
+	OpsPerG int         `json:"ops_per_g"`
+	Inputs  []string    `json:"inputs"`
+	Values  []int       `json:"values"` // rounds: fixed sizes (len = n) instead of seeded ones
+	Cases   [][]seqCall `json:"cases"`
+	Ops     []string    `json:"ops"`
 }
 
 type seqCall struct {
@@ -119,15 +119,15 @@ func statsProjection() map[string]int64 {
 	}
 	m := monitor.GetMetrics()
 	return map[string]int64{
-		"metrics.tokenizeOperations": s.TokenizeOperations, "metrics.tokenizeErrors": s.TokenizeErrors,
-		"metrics.parseOperations": s.ParseOperations, "metrics.parseErrors": s.ParseErrors,
-		"metrics.statementsCreated": s.StatementsCreated,
-		"metrics.poolGets":          s.PoolGets, "metrics.poolPuts": s.PoolPuts,
-		"metrics.astPoolGets": s.ASTPoolGets, "metrics.astPoolPuts": s.ASTPoolPuts,
-		"metrics.stmtPoolGets": s.StmtPoolGets, "metrics.stmtPoolPuts": s.StmtPoolPuts,
-		"metrics.exprPoolGets": s.ExprPoolGets, "metrics.exprPoolPuts": s.ExprPoolPuts,
-		"metrics.minQuerySize": s.MinQuerySize, "metrics.maxQuerySize": s.MaxQuerySize,
-		"metrics.totalQueryBytes": s.TotalBytesProcessed, "metrics.errorsByType": ebt,
+		"metrics.TokenizeOperations": s.TokenizeOperations, "metrics.TokenizeErrors": s.TokenizeErrors,
+		"metrics.ParseOperations": s.ParseOperations, "metrics.ParseErrors": s.ParseErrors,
+		"metrics.StatementsCreated": s.StatementsCreated,
+		"metrics.PoolGets":          s.PoolGets, "metrics.PoolPuts": s.PoolPuts,
+		"metrics.ASTPoolGets": s.ASTPoolGets, "metrics.ASTPoolPuts": s.ASTPoolPuts,
+		"metrics.StmtPoolGets": s.StmtPoolGets, "metrics.StmtPoolPuts": s.StmtPoolPuts,
+		"metrics.ExprPoolGets": s.ExprPoolGets, "metrics.ExprPoolPuts": s.ExprPoolPuts,
+		"metrics.MinQuerySize": s.MinQuerySize, "metrics.MaxQuerySize": s.MaxQuerySize,
+		"metrics.TotalBytesProcessed": s.TotalBytesProcessed, "metrics.ErrorsByType": ebt,
 		"monitor.TokenizerCalls": m.TokenizerCalls, "monitor.TokensProcessed": m.TokensProcessed,
 		"monitor.TokenizerErrors": m.TokenizerErrors, "monitor.ParserCalls": m.ParserCalls,
 		"monitor.ParserErrors": m.ParserErrors, "monitor.StatementsProcessed": m.StatementsProcessed,
@@ -255,10 +255,10 @@ func concRounds(req concReq) int {
 		}
 		got := statsProjection()
 		want := map[string]int64{
-			"metrics.tokenizeOperations": int64(n), "metrics.tokenizeErrors": nerr, "metrics.totalQueryBytes": sum,
-			"metrics.minQuerySize": mn, "metrics.maxQuerySize": mx, "metrics.errorsByType": 2 * nerr,
-			"metrics.parseOperations": int64(n), "metrics.parseErrors": nerr, "metrics.statementsCreated": stm,
-			"metrics.poolGets": int64(n), "metrics.poolPuts": int64(n),
+			"metrics.TokenizeOperations": int64(n), "metrics.TokenizeErrors": nerr, "metrics.TotalBytesProcessed": sum,
+			"metrics.MinQuerySize": mn, "metrics.MaxQuerySize": mx, "metrics.ErrorsByType": 2 * nerr,
+			"metrics.ParseOperations": int64(n), "metrics.ParseErrors": nerr, "metrics.StatementsCreated": stm,
+			"metrics.PoolGets": int64(n), "metrics.PoolPuts": int64(n),
 			"monitor.TokenizerCalls": int64(n), "monitor.TokensProcessed": sum, "monitor.TokenizerErrors": nerr,
 			"monitor.TokenizerDuration": sum, "monitor.ParserCalls": int64(n), "monitor.ParserErrors": nerr,
 			"monitor.StatementsProcessed": int64(n) - nerr, "monitor.ParserDuration": sum,
